@@ -14,9 +14,11 @@ FR_INVS = ['TypeOK', 'PrefixOfPackets', 'NoEarlyDelivery', 'ExactAtEnd', 'Reader
 
 
 # ------------------------------------------------------------------ framing executor
-def run_stream(stream, events):
+def run_stream(stream, events, keep=None):
     """Feed `stream` (bytes) to a real StreamFace.run according to events [{'a':'Feed','k':n}|{'a':'Eof'}].
-    Returns the trace record for FramingTrace."""
+    Returns the trace record for FramingTrace.  keep: a dict in which the face object survives from one stream to the
+    next - the application's face is connected again after the connection ended (a new event loop, a new reader); the
+    second stream must be framed on its own."""
     from ndn.transport.stream_face import StreamFace
 
     class TestFace(StreamFace):
@@ -31,7 +33,11 @@ def run_stream(stream, events):
     got = []
     out = []
     with Session() as s:
-        face = TestFace()
+        face = keep.get('face') if keep is not None else None
+        if face is None:
+            face = TestFace()
+        if keep is not None:
+            keep['face'] = face
 
         async def cb(typ, buf):
             got.append((typ, bytes(buf)))
@@ -299,7 +305,13 @@ def framing(ctx):
                 evs[-1] = {'a': 'FeedEof'}
             else:
                 evs.append({'a': 'Eof'})
-            rec, bad = run_stream(stream, evs)
+            # every fourth stream arrives on a face object that has carried the previous stream (connection ended -
+            # possibly in the middle of a packet - and the face was opened again)
+            nstream = getattr(framing, '_n', 0) + 1
+            framing._n = nstream
+            if nstream % 4 == 1:
+                framing._keep = {}
+            rec, bad = run_stream(stream, evs, keep=framing._keep if nstream % 4 in (1, 2) else None)
             recs.append(rec)
             if bad:
                 ctx.violation('C06/StreamFace/run/internal-error', bad, {'kind': 'framing', 'rec': rec})
